@@ -12,7 +12,7 @@ ID = "C17"
 COQ_DIR = "C17"
 RUN_MOD = "C17.Run"
 MODEL_TARGETS = ["C17/Run.vo"]
-PROOF_TARGETS = ["C17/Lemmas.vo", "C17/CodecProofs.vo", "C17/Spec.vo"]
+PROOF_TARGETS = ["C17/Lemmas.vo", "C17/CodecProofs.vo", "C17/Spec.vo", "C17/LemmasAdd.vo"]
 PROPS = ["C17/Props.v"]
 ALLOWED_AXIOMS = []
 IMPL_TIMEOUT = 20.0
@@ -26,7 +26,8 @@ RULE = ("random programs (8-40 operations) over: caller objects (adapter lists, 
         "clone(None / adapter / list), wrapper methods with components (get_conn + per-prefix cache), "
         "get/post/put/delete/patch and direct do_request with default / lower-case methods; every program ends with a "
         "sweep of requests through every connection and caller created, re-using the same caller objects; ~12% of the "
-        "programs also use add_adapter (model only).  Non-trivial = a request goes through a chain of depth >= 2 "
+        "programs also use add_adapter (compared with the model; the oracle demands that it reaches only the connection "
+        "object it is called on).  Non-trivial = a request goes through a chain of depth >= 2 "
         "after a later derivation from one of its connections or callers.")
 TRUSTED_BASE = [
     "urllib.request.Request stores headers under key.capitalize() (later value wins), keeps url / data / method as "
@@ -45,8 +46,10 @@ ASSUMPTIONS = [
     "adapters are the four of ak/conn_http.py (path prefix, basic, client, token) or the harness's TagAdapter; "
     "`adapters` arguments are None, one adapter or a list (tuples raise TypeError in _HttpConnBase.__init__ and are "
     "outside the statement); header names and explicit methods are ASCII; no surrogate code points",
-    "add_adapter (which mutates a connection by design) is outside the quantifier of the theorems and of the oracle; "
-    "programs using it are compared with the model only",
+    "add_adapter mutates a connection by design: theorems and oracle say that it changes requests through the connection "
+    "object it is called on (adapter applied last) and through nothing else; whether a prefixed connection that a caller "
+    "cached before add_adapter on the caller's own connection sees the added adapter is not determined by the property "
+    "(the code keeps the cached one; model = code, no oracle verdict)",
     "single-threaded use (request ids under concurrency are C16); the value of X-Request-ID is not compared",
 ]
 MODELLED = ("ak/conn_http.py RequestArguments, the adapters, _HttpConnBase.__init__/add_adapter/get..patch, "
@@ -981,7 +984,6 @@ def oracle(case, obs):
     out = []
     ops = case["ops"]
     res = obs["ops"]
-    has_add = _has_add(case)
     objs = []        # declared caller objects (op dicts)
     conns = []       # {"addr":..., "ids": bool, "chain": [adspec]}
     callers = []     # {"map": dict, "conn": conn dict}
@@ -1084,7 +1086,7 @@ def oracle(case, obs):
         if req["method"] != wm:
             out.append(("method", f"op #{idx} {what}: method {req['method']}, expected {wm}"))
         # the same request through the same object must not depend on what was derived meanwhile
-        key = json.dumps([what, q], sort_keys=True)
+        key = json.dumps([what, q, conn.get("ver", 0)], sort_keys=True)
         canon = json.dumps([req["url"], req["method"], sorted([k, v] for k, v in req["headers"] if k != REQID_CAP),
                             REQID_CAP in got_h, req["data"], req["resp"]])
         if key in seen and seen[key][1] != canon:
@@ -1097,13 +1099,19 @@ def oracle(case, obs):
             objs.append(o)
             continue
         if t == "add":
+            # conn.add_adapter(a): a is appended to the list of THAT connection object (all its names see it,
+            # nothing else does: connections derived from it earlier hold their own list)
+            if r[0] == "ok":
+                c = conns[o["c"]]
+                c["chain"] = c["chain"] + [o["ad"]]
+                c["ver"] = c.get("ver", 0) + 1
+            elif r[0] == "err":
+                out.append(("add-raises", f"op #{idx} {json.dumps(o)[:300]} raised {r[1]}"))
             continue
         if t in ("conn", "caller", "clone"):
             if r[0] != "ok":
                 sig = "clone-list" if t == "clone" and o["ad"][0] == "list" else "derive-raises"
                 out.append((sig, f"op #{idx} {json.dumps(o)[:300]} raised {r[1]}"))
-                if has_add:
-                    continue
                 return out       # later indices refer to an object that does not exist
             if t == "conn":
                 w = o["w"]
@@ -1121,8 +1129,6 @@ def oracle(case, obs):
                 conns.append(c)
                 callers.append({"map": m["map"], "conn": c})
             continue
-        if has_add:
-            continue             # add_adapter is outside the quantifier: such programs are compared with the model only
         if t == "req":
             check_request(idx, o, r, conns[o["c"]], o["q"], f"conn#{o['c']}")
         elif t == "call":
@@ -1135,6 +1141,11 @@ def oracle(case, obs):
                 match = [c for c in cl if c in m["map"]]
                 if len(match) != 1:
                     continue     # the wrapper is not available on this caller (AssertionError): nothing is demanded
+                if m["conn"].get("ver", 0):
+                    # add_adapter was called on this caller's own connection: whether a prefixed connection made
+                    # before that sees the added adapter is not determined by the property (the code keeps the
+                    # cached one); compared with the model only
+                    continue
                 pfx = m["map"][match[0]]
                 conn = {"addr": m["conn"]["addr"], "ids": m["conn"]["ids"],
                         "chain": ([["prefix", pfx]] if pfx else []) + m["conn"]["chain"]}
@@ -1207,11 +1218,46 @@ def shrink_candidates(case):
                     yield {"ops": ops[:i] + [o2] + ops[i + 1:]}
 
 
-TECHNIQUE = ("Coq proof (invariant over all operation sequences, refinement of the heap-manipulating request assembly to a "
-             "pure specification, induction over adapter chains) on a hand-written Gallina heap model + per-run "
-             "correspondence check (vm_compute vs implementation on random programs) + clauses and literal keys "
-             "regenerated from the source")
-LEVEL_TEXT = "see harness/props/c17.notes.md"
-LEVEL_NOTE = ("Trusted: Coq kernel + vm_compute; the hand model's fidelity (checked by correspondence, not proved); urllib / "
-              "json / base64 of the standard library; the ast extractor and harness.")
+TECHNIQUE = ("Coq proof on a hand-written executable Gallina HEAP model (mutable python objects = cells addressed by references, "
+             "connection identity = the reference of its own adapter list): (1) refinement of the heap-manipulating request assembly "
+             "(RequestArguments copy, adapters writing through the reference, do_request) to a pure specification spec_of; (2) an "
+             "invariant over ALL operation sequences without add_adapter (conn.adapters = own adapters of the whole chain, for every "
+             "connection, every caller and every cached prefixed connection) giving chain_applied_once / frame / noninterference; "
+             "(3) a second, weaker ownership invariant over ALL operation sequences INCLUDING add_adapter (every connection owns its "
+             "list cell; cached connections are not nameable) giving frame_any / noninterference_any / add_adapter_effect; (4) "
+             "induction over adapter lists for prefix order, tags, the Authorization header; (5) base64 / utf-8 modelled with proved "
+             "round trips.  Tied to the code per run by the correspondence check (vm_compute of the model vs the implementation on "
+             "random programs, incl. programs with add_adapter) and by clauses / literal keys regenerated from the source (ast, "
+             "fail closed) on which source_clauses states the obligations.")
+LEVEL_TEXT = ("Model-level theorems (coq/C17/Props.v, 30 theorems + 8 examples, all closed), quantified over ALL chains, ALL request "
+              "arguments and ALL operation sequences (programs over wrap / Caller / clone(None|adapter|list) / component lookup with "
+              "the per-prefix cache / request / new caller objects) -- FULL: chain_applied_once + wrapper_call_chain (a request "
+              "= spec_of the adapters of the whole chain, own first then the parent's ..., each once in that order; component "
+              "prefix adapter in front, fresh / cached / empty-prefix case alike), adapters_each_once, prefix_order + prefix_join "
+              "(inner prefixes outermost), response_reverse_order (ORDER of process_response calls only), one_auth (exactly one "
+              "key Authorization in Request.headers holding the value of the one authenticating adapter, wherever it sits; also "
+              "when the caller passes 'authorization' in another spelling), auth_decodes + codec_roundtrip (base64 and utf-8 are "
+              "MODELLED in Codec.v; b64_dec(b64 x) = x and utf8_decode(utf8 s) = s proved for all byte / code-point strings, so the "
+              "value decodes to login:password / id:secret; the decoders are the model's, the encoders are compared with the "
+              "standard library on every case), two_auth_refused, no_auth_no_header, url_formula, body_encoding + "
+              "body_never_dropped + json_body (every non-None body is sent, falsy ones included: b'' '' {} [] 0 False), frame "
+              "(no existing heap cell and no caller object changes), noninterference (requests through existing connections and "
+              "wrapper calls on existing callers observe the same after any such sequence), same_objects_reused, clone_list (after "
+              "fix 53201f3).  add_adapter is an operation of the model too: frame_any (caller objects are never written by ANY "
+              "sequence), noninterference_any (requests through c / wrapper calls on m unchanged unless add_adapter is called on the "
+              "object c / m.http_conn itself), derived_is_new_object + derive_then_add (add_adapter on a derived connection or a "
+              "clone's connection never reaches the original), add_adapter_effect (the added adapter is applied last, to that "
+              "connection only), request_any / wrapper_call_any.  PARTIAL / abstract: json.dumps text and truthiness of a structured "
+              "body are oracle values (BJson js t); urlencode is the model's quote_plus (compared, not proved against urllib); the "
+              "response clause covers the order of the processors, not the values threaded through them; is_text admits surrogates "
+              "(python raises there; not generated).  ONLY TESTED (correspondence + oracle, 700 programs quick / 12000 thorough): "
+              "that the model is the code -- urllib's Request header storage (capitalize, later wins), str.upper / "
+              "capitalize for non-ASCII, the conn_data forms (address / list / tuple / dict), HttpConn-or-not test of "
+              "MCallerHttp.__init__, exception classes; NOT claimed: tuples as `adapters` (TypeError in the code, outside the "
+              "statement), raw_response / json decoding of the response / HTTPError, descriptions, auth_type, logging, threads (C16).")
+LEVEL_NOTE = ("Trusted: Coq kernel + vm_compute; the hand model's fidelity to ak/conn_http.py and ak/mcaller_http.py (checked by "
+              "correspondence on every run and by the regenerated clauses, not proved); urllib.request.Request / urlencode / "
+              "json.dumps / base64 / str.encode of the standard library (modelled or passed in as values, compared per case); the ast "
+              "extractor, the substitute opener, TagAdapter and the harness.  The heap model abstracts python object identity to "
+              "allocation order; own_adapters (used for descriptions only) is kept by value.")
 DESIGN_REF = "DESIGN.md section 8, C17"
